@@ -1061,13 +1061,20 @@ def push_thread_bindings(m: IPersistentMap[Var, Any]) -> None:
     """Push thread local bindings for the Var keys in m using the values."""
     bindings = set()
 
-    for var, val in m.items():
-        if not var.dynamic:
-            raise RuntimeException(
-                "cannot set thread-local bindings for non-dynamic Var"
-            )
-        var.push_bindings(val)
-        bindings.add(var)
+    try:
+        for var, val in m.items():
+            if not var.dynamic:
+                raise RuntimeException(
+                    "cannot set thread-local bindings for non-dynamic Var"
+                )
+            var.push_bindings(val)
+            bindings.add(var)
+    except Exception:
+        # The frame is established for all of the Vars or for none: callers only pop
+        # the bindings (in a `finally`) once this function has returned.
+        for var in bindings:
+            var.pop_bindings()
+        raise
 
     _THREAD_BINDINGS.push_bindings(lset.set(bindings))
 
